@@ -4,21 +4,23 @@
 import json, re, subprocess, sys
 from pathlib import Path
 
-V = Path("/verif")
+import os
+V = Path(os.environ.get("QV_VERIF") or Path(__file__).resolve().parents[1])      # relocatable for my own exploration (snapshot + scratch worktree)
+REPO = os.environ.get("QV_REPO", "/repo")
 sel = sys.argv[1:]
 for d in sorted((V / "seeded").iterdir()):
     if not d.is_dir() or (sel and d.name not in sel):
         continue
     pid = d.name.split("-")[0]
-    if subprocess.run(["git", "-C", "/repo", "diff", "--quiet"]).returncode != 0:
+    if subprocess.run(["git", "-C", REPO, "diff", "--quiet"]).returncode != 0:
         sys.exit("repo dirty")
-    if subprocess.run(["git", "-C", "/repo", "apply", str(d / "patch.diff")]).returncode != 0:
+    if subprocess.run(["git", "-C", REPO, "apply", str(d / "patch.diff")]).returncode != 0:
         print(d.name, "patch does not apply"); continue
     try:
         p = subprocess.run(["./check", pid, "--tier", "quick"], cwd=V, capture_output=True, text=True)
     finally:
-        subprocess.run(["git", "-C", "/repo", "checkout", "--", "."])
-        subprocess.run(["git", "-C", str(V), "checkout", "--", "evidence"])
+        subprocess.run(["git", "-C", REPO, "checkout", "--", "."])
+        subprocess.run(["git", "-C", str(V), "checkout", "--", "evidence"], capture_output=True)
     lines = [l for l in p.stdout.splitlines() if l.startswith(("VIOLATION", "KNOWN-FINDING"))]
     meta_p = d / "meta.json"
     meta = json.loads(meta_p.read_text()) if meta_p.exists() else {}
